@@ -222,6 +222,12 @@ def classify(rec, v):
     if obl in ("eval", "unfeasible-but-feasible") and kinds == {"bottom/point"} and nbad > 0 \
             and info.get("bad_with_zero_param") == info.get("bad"):
         tags.append("solution_lost_only_where_a_parameter_is_zero")
+    if obl == "eval" and nbad > 0 and info.get("bad_infeasible_point") == info.get("bad"):
+        # every wrong valuation yields a point outside the feasible region: a guard (sign test of a row) was lost
+        tags.append("tree_point_outside_feasible_region")
+    if obl in ("ok-false", "malformed"):
+        if any(n["k"] == "D" and n["f"]["k"] != "B" and len(n["cons"]) >= 2 for n in walk_nodes(parse_tree(rec.tree))):
+            tags.append("decision_node_with_several_tests_and_false_child")
     if obl == "scope" or info.get("scoped") == "false" or any(k.startswith("scopeError") for k in kinds):
         tags.append("undeclared_artificial_parameter")
     if big >= 0 and any(cf[big] != 0 and any(abs(cf[i]) >= 2 for i in var) for (rel, k, cf) in rows):
